@@ -5,7 +5,11 @@ set -u
 PATCH="$(realpath "$1")"; shift
 W="$(mktemp -d /tmp/mofun-mut.XXXXXX)"
 trap 'rm -rf "$W"' EXIT
-rsync -a --exclude .git --exclude '__pycache__' /repo/ "$W/repo/"
+if [ -n "${BASE_COMMIT:-}" ]; then
+  mkdir -p "$W/repo" && git -C /repo archive "$BASE_COMMIT" | tar -x -C "$W/repo"     # a patch made against an older commit
+else
+  rsync -a --exclude .git --exclude '__pycache__' /repo/ "$W/repo/"
+fi
 ( cd "$W/repo" && patch -p1 -s < "$PATCH" ) || { echo "PATCH-FAILED $PATCH"; exit 3; }
 mkdir -p "$W/out"
 VERIF_REPO="$W/repo" VERIF_OUT="$W/out" "$(dirname "$0")/../check" "$@"
